@@ -356,10 +356,13 @@ Definition o_rename (s : ofs) (oldname newname : str) : ofs * res :=
   let n_abs := oabs s newname in
   match osplit (o_os s) o_abs, osplit (o_os s) n_abs with
   | Some (o_dir, o_file), Some (n_dir, n_file) =>
-      match ofind s o_abs, ofind s o_dir, ofind s n_dir with
-      | Some (oc, ocn), Some (op, _), Some (np, npn) =>
+      match ofind s o_dir, ofind s n_dir, ofind s o_abs with
+      | Some (_, opn), Some (_, npn), None =>
+          if negb (on_dir opn) || negb (on_dir npn) then (s, RFail ENotADirectory)
+          else (s, o_enf s o_abs (RFail ENoSuchFile))
+      | Some (op, opn), Some (np, npn), Some (oc, ocn) =>
           let nchild := ofind s n_abs in
-          if negb (on_dir npn) then (s, RFail ENotADirectory)
+          if negb (on_dir opn) || negb (on_dir npn) then (s, RFail ENotADirectory)
           else
             let n_is_dir := match nchild with Some (_, nn) => on_dir nn | None => false end in
             let n_ok := match nchild with Some _ => true | None => false end in
@@ -379,8 +382,9 @@ Definition o_rename (s : ofs) (oldname newname : str) : ofs * res :=
               let idx1 := aremove str_eqb o_abs (aset str_eqb n_abs oc (o_index s)) in
               let idx2 := if on_dir ocn then o_rekey_go (o_os s) o_abs n_abs (map fst idx1) idx1 else idx1 in
               (o_with s idx2 h3, ROk)
-      | Some _, Some _, None => (s, o_enf s n_abs (RFail ENoSuchFile))
-      | _, _, _ => (s, o_enf s o_abs (RFail ENoSuchFile))
+      | Some (_, opn), None, _ =>
+          if negb (on_dir opn) then (s, RFail ENotADirectory) else (s, o_enf s n_abs (RFail ENoSuchFile))
+      | None, _, _ => (s, o_enf s o_abs (RFail ENoSuchFile))
       end
   | _, _ => (s, RPanic)
   end.
